@@ -1301,6 +1301,14 @@ func explore(p *program, strategy int, schedSeed uint64, budget int, keepTrace b
 		for _, t := range s.threads {
 			s.step(t)
 		}
+		// in half of the runs the reader is stopped in the MIDDLE of a lookup (after a few of its own atomic actions):
+		// the others then run on - updating the very entry it is reading, taking bucket locks, resizing - before they are
+		// frozen, and the reader must still finish that lookup alone
+		if rd0 := s.threads[0]; s.r.chance(1, 2) {
+			for k := 1 + s.r.intn(14); k > 0 && !rd0.done && rd0.runnable(); k-- {
+				s.step(rd0)
+			}
+		}
 		for s.steps < freezeAt {
 			var rs []*sthread
 			for _, t := range s.threads[1:] {
